@@ -442,6 +442,22 @@ func (v *fnVC) applyCall(c *ssa.CallCommon, x *ssa.Call, pos token.Pos, cond T) 
 	}
 	if v.con != nil {
 		for _, r := range v.con.AtCall[key] {
+			// caller(x): the caller's variable x as it is at this call
+			env.callerNames = v.namesAt(v.blk)
+			if x != nil {
+				for _, in := range v.blk.Instrs {
+					if in == ssa.Instruction(x) {
+						break
+					}
+					if dr, ok := in.(*ssa.DebugRef); ok && !dr.IsAddr {
+						if obj := drObject(dr); obj != nil {
+							if vr, ok := obj.(*types.Var); !ok || !vr.IsField() {
+								env.callerNames[obj.Name()] = dr.X
+							}
+						}
+					}
+				}
+			}
 			t, _ := v.tr(r.E, env)
 			v.oblige("at-call@"+key, r.Text, t, pos)
 		}
